@@ -1,8 +1,10 @@
 // C05 — Policy engine evaluates rule trees with the documented AND/OR/fallback semantics.
 // Oracle: a reference interpreter written from the property statement / policy.h documentation.
 #include "ksi_util.hpp"
+#include "seeds.hpp"
 extern "C" {
 #include <ksi/policy.h>
+#include <ksi/signature_helper.h>
 }
 #include <deque>
 #include <functional>
@@ -137,6 +139,12 @@ static void runChain(Case &c, const std::vector<PolicyModel> &chain) {
         else for (size_t i = 0; i < evaluated; i++) { KSI_RuleVerificationResult *pr = nullptr; KSI_RuleVerificationResultList_elementAt(res->policyResults, i, &pr);
             if (!pr || pr->resultCode != rcs[perPolicy[i].rc] || (int)pr->errorCode != perPolicy[i].errorCode) { VF_FAIL(c, "C05:fallback:policy-result-differs", "result recorded for policy " + num((long long)i) + " differs from the reference"); break; } }
     }
+    // the convenience wrapper over the same policy: its status is KSI_OK exactly for a final OK, the rule's own status for an internal error, and a verification failure otherwise
+    if (!c.fail) { static KSI_Signature *anySig = nullptr; if (!anySig) for (size_t si : seedsOf(SK_SIG)) { const Seed &sd = seeds()[si]; HeapBuf in(sd.data); if (KSI_Signature_parseWithPolicy(ctx, in.p, in.n, KSI_VERIFICATION_POLICY_EMPTY, nullptr, &anySig) == KSI_OK && anySig) break; anySig = nullptr; }
+        if (anySig) { g_trace.clear(); int wr = KSI_Signature_verifyWithPolicy(anySig, nullptr, 0, cl ? cl : pols[0], nullptr); int want = ev.error ? ev.errRet : (ev.rc == 0 ? KSI_OK : KSI_VERIFICATION_FAILURE);
+            if (wr != want) VF_FAIL(c, ev.error ? "C05:wrapper:error-code-differs" : (wr == KSI_OK ? "C05:wrapper:OK-although-final-verdict-is-not-OK" : "C05:wrapper:status-differs"), "KSI_Signature_verifyWithPolicy returned " + num(wr) + ", the final verdict of the policy chain asks for " + num(want) + " for " + d);
+            else if (g_trace != wantTrace) VF_FAIL(c, "C05:wrapper:trace-differs", "the wrapper invoked the rules in another order than the verifier: [" + traceStr(g_trace) + "] for " + d);
+            c.cls("wrapper:verifyWithPolicy"); } }
     KSI_PolicyVerificationResult_free(res); KSI_VerificationContext_clean(&vc); KSI_Policy_free(cl);
     for (auto p : pols) KSI_Policy_free(p);
     c.cls(ev.error ? "end:error" : (ev.rc == 0 ? "end:OK" : ev.rc == 1 ? "end:NA" : "end:FAIL"));
